@@ -23,6 +23,10 @@ FILES = {
     'inc2.conf': 'sec deep { xs = "two" include("inc3.conf") }\n',
     'inc3.conf': 'x = 3\npp = obj\nsub { y = 1 }\n',
     'secinc.conf': 'xs = "inner"\nxl += {"z"}\npp = "o2"\n',
+    'self.conf': 'i = 3\ninclude("self.conf")\n',
+    'd0.conf': 'include("d1.conf")\n', 'd1.conf': 'include("d2.conf")\n', 'd2.conf': 'include("d3.conf")\n', 'd3.conf': 'include("d4.conf")\n',
+    'd4.conf': 'include("d5.conf")\n', 'd5.conf': 'include("d6.conf")\n', 'd6.conf': 'include("d7.conf")\n', 'd7.conf': 'include("d8.conf")\n',
+    'd8.conf': 'include("d9.conf")\n', 'd9.conf': 'sec last { include("d10.conf") }\n', 'd10.conf': 'x = 1\n',
 }
 
 BASES = [
@@ -31,6 +35,8 @@ BASES = [
     '# note one\ni = 6\n/* note two */\ns = "annotated"\n// three\nil = {7}\n# four\nsl = first\nkv { alpha = "1" beta = two alpha = "3" }\nnd { w = "set" }\nnd { }\n',
     'include("inc1.conf")\ni = 9\nsec t { include("secinc.conf") x = 4 }\ninclude("inc1.conf")\n',
     'p = first\np = second\npl = {a}\npl += {b, c}\npl = {}\npl = d\nsv = "checked"\none { zp = a }\none { zp = b }\nsec s { pp = x }\nsec s { }\n',
+    'i = 1\ninclude("self.conf")\ns = "never"\n',                                 # runs into the include depth limit
+    'include("d0.conf")\ninclude("d1.conf")\nsec q { include("nosuch.conf") }\n',  # one level too deep, exactly the limit, missing file
 ]
 
 RULE = ('valid base texts (lists, function calls with 0-3 arguments, nested/titled/key=value/no-default sections, includes 1-3 deep, pointer options with release callback, '
